@@ -39,6 +39,7 @@ func within(d time.Duration, f func()) bool {
 }
 
 func largeBodies(res *vkit.Result) {
+	hung := 0
 	// (a) long failure streaks in Search: f yields nil `streak` times (over all workers), then values
 	for _, w := range []int{1, 2, 4} {
 		for _, streak := range []int64{1500, 5000, 20000} {
@@ -61,6 +62,10 @@ func largeBodies(res *vkit.Result) {
 				if !ok {
 					res.Violate("hang|"+sig, fmt.Sprintf("Search(%d) on a %d-worker pool whose task fails %d times before it succeeds did not return within 60 s (%d task calls were made)", count, w, streak, atomic.LoadInt64(&calls)),
 						map[string]interface{}{"body": "search-long-streak", "w": w, "streak": streak, "count": count})
+					hung++
+					if hung >= 2 {
+						return // every further combination would wait for its timeout as well
+					}
 					continue
 				}
 				nn := 0
